@@ -2,9 +2,11 @@
 # usage: confirm_seed.sh <dir with patch.diff + zz_seed_demo_test.go> [demo package dir]
 # Confirms in a scratch copy: patch applies, builds, baseline tests pass, demo fails with / passes without.
 set -u
-export GOFLAGS=-mod=mod GOPROXY=off GOSUMDB=off GOTOOLCHAIN=local GOWORK=off
+export GOFLAGS="-mod=mod -trimpath" GOPROXY=off GOSUMDB=off GOTOOLCHAIN=local GOWORK=off
 d=$(readlink -f "$1")
 scratch=$(mktemp -d "${TMPDIR:-/tmp}/gmcseed.XXXXXX")
+[ -n "$scratch" ] && [ -d "$scratch" ] || { echo "NO-SCRATCH-DIR (disk full?)"; exit 9; }
+case "$scratch" in /repo*|/verif*) echo "REFUSING scratch=$scratch"; exit 9;; esac
 trap 'rm -rf "$scratch"' EXIT
 rsync -a --exclude .git /repo/ "$scratch/r/"
 cd "$scratch/r"
@@ -15,7 +17,7 @@ demo=$(ls "$d"/*_test.go 2>/dev/null | head -1)
 cp "$demo" "$pk/"
 # without patch
 if go test -count=1 -run . -timeout 120s "./$pk/" >"$scratch/clean.log" 2>&1; then clean=pass; else clean=FAIL; fi
-patch -p1 -s < "$d/patch.diff" || { echo "PATCH-FAILED"; exit 3; }
+patch -p1 -s --batch < "$d/patch.diff" || { echo "PATCH-FAILED"; exit 3; }
 go build ./... >"$scratch/b.log" 2>&1 || { echo "NO-COMPILE"; cat "$scratch/b.log" | head; exit 4; }
 if go test -count=1 -timeout 120s "./$pk/" >"$scratch/mut.log" 2>&1; then mut=pass; else mut=FAIL; fi
 rm "$pk/$(basename "$demo")"
